@@ -8,7 +8,7 @@ from . import C07
 
 META = {
     "level": "other",
-    "explanation": "Effect analysis: (R1) no method of any Construct subclass or expression class, other than the construction-time methods __init__/__setstate__/__copy__, writes an attribute of self, mutates a container reached from self, or calls setattr/delattr on self; (R2) no function in the package declares `global`, rebinds a module-level name, or mutates a module-level or class-level container (frozen: the three documented print-setting functions, which only influence __str__); (R3) each public call builds a fresh context (shared with C07.R3); (R4) parse/parse_file/build/build_file delegate to parse_stream/build_stream with the caller's keyword arguments, a fresh in-memory stream or a file opened in the right mode, and return the delegate's result. R1+R2 establish the absence of shared mutable state, which is the only way call history or thread schedules could influence a result.",
+    "explanation": "Effect analysis: (R1) no method of any Construct subclass or expression class, other than the construction-time methods __init__/__setstate__/__copy__, writes an attribute of self, mutates a container reached from self, or calls setattr/delattr on self; (R2) no function in the package declares `global`, rebinds a module-level name, or mutates a module-level or class-level container (frozen: the three documented print-setting functions, which only influence __str__); (R3) each public call builds a fresh context (shared with C07.R3); (R4) parse/parse_file/build/build_file delegate to parse_stream/build_stream with the caller's keyword arguments, a fresh in-memory stream or a file opened in the right mode, and return the delegate's result. R1+R2 establish the absence of shared mutable state, which is the only way call history or thread schedules could influence a result. (R5) start-offset independence: no read length, written data, write length or relative seek of any _parse/_build depends on the absolute stream position once tells are valued by the position algebra (only position differences do). (R6) substreams translate positions by the outer offset of the region's first byte in tell and absolute seeks only (shared with C08.R3).",
     "undecided": "Thread schedules as such are not explored; stream objects supplied by the caller are the caller's; Rebuffered (documented experimental) and debug.py are frozen exceptions.",
     "trusted_base": ["python ast (3.12)", "sa.summ summariser (write events SELFWRITE/STORE/MUT/ATTRSET/GLOBALWRITE)"],
     "assumptions": ["aliasing through local names is followed by substitution; aliasing through containers returned by opaque calls is not"],
@@ -69,6 +69,7 @@ def check_effects(ctx, fi, self_cls, shared, in_scope_r1):
 
 
 def run(ctx):
+    from ..core import Ctx
     M = ctx.model
     shared = module_names(M)
     scope_r1 = {c.name for c in M.subclasses("Construct")} | {c.name for c in M.subclasses("ExprMixin")}
@@ -166,9 +167,20 @@ def run(ctx):
         ctx.ob("C17.R5", fi, ok, "%s of %s does not depend on the absolute stream position (so parse_stream/build_stream at any starting offset behave like parse/build on a fresh stream)%s" % (what, q, "" if ok else ": " + N.show(v)[:120]),
                key=what, node=e.node)
     ctx.floor("C17.R5", 50)
+    # R6: the substreams of the delimiting wrappers translate positions by the outer offset of the region's first byte, in tell and in absolute
+    # seeks only (shared with C08.R3) -- what makes constructs inside a region independent of where the region starts
+    from . import C08
+    sub = Ctx("C08", ctx.tier, ctx.root, model=ctx.model)
+    sub._summ = summariser(ctx)
+    C08.run(sub)
+    for e in sub.errors:
+        ctx.error("shared C08 rules: " + e)
+    for o in sub.obligations:
+        if o.rule == "C08.R3":
+            ctx.ob("C17.R6", o.where, o.ok, o.what, key=o.key, loc=o.loc, detail=o.detail)
+    ctx.floor("C17.R6", 12)
 
     # positive control
-    from ..core import Ctx
     ctl = control_model(
         "import sys\nTABLE = {}\n"
         "class Construct(object):\n    pass\n"
